@@ -159,17 +159,63 @@ def main():
     n_ops = 0
     if ok:
         runs = cfg["runs"](tier, seed, replay)
-        for ri, run in enumerate(runs):
+        from concurrent.futures import ThreadPoolExecutor
+        def one(args):
+            ri, run = args
+            res = dict(run=run, violations=[], st=None, dis=[], nops=0)
             rdir = os.path.join(work, f"run{ri}")
             os.makedirs(rdir, exist_ok=True)
-            r = sh([os.path.join(HARNESS, "target", "release", "hcverif")] + run + ["--out", rdir],
-                   cwd=ROOT, timeout=cfg.get("timeout", 3600))
+            try:
+                r = sh([os.path.join(HARNESS, "target", "release", "hcverif")] + run + ["--out", rdir],
+                       cwd=ROOT, timeout=cfg.get("timeout", 3000))
+            except subprocess.TimeoutExpired:
+                res["violations"].append(dict(kind="harness", key="harness-timeout", detail="harness timed out: " + " ".join(run), found_input=False, payload=dict(cmd=run)))
+                return res
             if r.returncode != 0:
-                violations.append(dict(kind="harness", key=f"harness-exit-{r.returncode}",
-                                       detail=(r.stdout or "")[-800:], found_input=False,
-                                       payload=dict(cmd=run)))
+                hang = os.path.join(rdir, "hang.txt")
+                detail = open(hang).read()[:1500] if os.path.exists(hang) else (r.stdout or "")[-800:]
+                res["violations"].append(dict(kind="harness", key=f"harness-exit-{r.returncode}:" + detail[:60],
+                                       detail=detail, found_input=os.path.exists(hang), payload=dict(cmd=run, detail=detail)))
+                return res
+            res["st"] = json.load(open(os.path.join(rdir, "stats.json")))
+            ops = os.path.join(rdir, "ops.txt")
+            if have_drv and os.path.exists(ops) and cfg.get("model", True):
+                with open(ops) as fi, open(os.path.join(rdir, "model.out"), "w") as fo:
+                    try:
+                        rr = subprocess.run([drv], stdin=fi, stdout=fo, stderr=subprocess.PIPE, text=True,
+                                            timeout=cfg.get("timeout", 3000))
+                    except subprocess.TimeoutExpired:
+                        res["violations"].append(dict(kind="model", key="driver-timeout", detail="lean driver timed out on " + " ".join(run), found_input=False))
+                        return res
+                if rr.returncode != 0:
+                    res["violations"].append(dict(kind="model", key="driver-crashed", detail=rr.stderr[-500:], found_input=False))
+                il = open(os.path.join(rdir, "impl.out")).read().split("\n")
+                ml = open(os.path.join(rdir, "model.out")).read().split("\n")
+                ol = open(ops).read().split("\n")
+                res["nops"] = len([x for x in ol if x])
+                for i in range(max(len(il), len(ml))):
+                    a = il[i] if i < len(il) else "<missing>"
+                    b = ml[i] if i < len(ml) else "<missing>"
+                    if a != b:
+                        # context: the history since the last reset
+                        j = i
+                        while j > 0 and ol[j] != "reset":
+                            j -= 1
+                        res["dis"].append(dict(run=run, line=i, op=ol[i] if i < len(ol) else "", impl=a[:2000], model=b[:2000],
+                                               history=ol[j:i + 1][-60:]))
+                        if len(res["dis"]) > 20:
+                            break
+            return res
+        with ThreadPoolExecutor(max_workers=16) as ex:
+            results = list(ex.map(one, list(enumerate(runs))))
+        for res in results:
+            violations.extend(res["violations"])
+            disagreements.extend(res["dis"])
+            n_ops += res["nops"]
+            st = res["st"]
+            if st is None:
                 continue
-            st = json.load(open(os.path.join(rdir, "stats.json")))
+            run = res["run"]
             for k, v in st.items():
                 if isinstance(v, (int, float)) and not isinstance(v, bool):
                     stats[k] = stats.get(k, 0) + v
@@ -177,31 +223,12 @@ def main():
                     d = stats.setdefault(k, {})
                     for kk, vv in v.items():
                         d[kk] = d.get(kk, 0) + vv if isinstance(vv, (int, float)) else vv
-                elif isinstance(v, list):
+                elif isinstance(v, list) and k != "failures":
                     stats.setdefault(k, []).extend(v)
-                else:
+                elif k != "failures":
                     stats[k] = v
             for f in st.get("failures", []):
                 impl_fail.append(dict(run=run, **(f if isinstance(f, dict) else dict(key=f[:120], detail=f))))
-            # model side
-            ops = os.path.join(rdir, "ops.txt")
-            if have_drv and os.path.exists(ops) and cfg.get("model", True):
-                with open(ops) as fi, open(os.path.join(rdir, "model.out"), "w") as fo:
-                    rr = subprocess.run([drv], stdin=fi, stdout=fo, stderr=subprocess.PIPE, text=True,
-                                        timeout=cfg.get("timeout", 3600))
-                if rr.returncode != 0:
-                    violations.append(dict(kind="model", key="driver-crashed", detail=rr.stderr[-500:], found_input=False))
-                il = open(os.path.join(rdir, "impl.out")).read().split("\n")
-                ml = open(os.path.join(rdir, "model.out")).read().split("\n")
-                ol = open(ops).read().split("\n")
-                n_ops += len([x for x in ol if x])
-                for i in range(max(len(il), len(ml))):
-                    a = il[i] if i < len(il) else "<missing>"
-                    b = ml[i] if i < len(ml) else "<missing>"
-                    if a != b:
-                        disagreements.append(dict(run=run, line=i, op=ol[i] if i < len(ol) else "", impl=a[:2000], model=b[:2000]))
-                        if len(disagreements) > 50:
-                            break
 
     # ---- classify
     known = [k for k in load_known() if k["property"] == pid]
@@ -233,8 +260,8 @@ def main():
                                    payload=dict(names=cfg["theorems"] + cfg.get("bridging", []), failure=lf)))
 
     # ---- evidence
-    samples = []
-    for ri in range(8):
+    samples = list(stats.get("samples", []))[:3]
+    for ri in range(3):
         p = os.path.join(work, f"run{ri}", "ops.txt")
         if os.path.exists(p):
             with open(p) as f:
@@ -258,7 +285,7 @@ def main():
         rule=cfg.get("rule", ""),
         samples=samples,
         correspondence=dict(ops_compared=n_ops, disagreements=len(disagreements), implementation_oracle_failures=len(impl_fail)),
-        input_distribution={k: v for k, v in stats.items() if k not in ("failures",)},
+        input_distribution={k: v for k, v in stats.items() if k not in ("failures", "samples")},
         known_findings_hit=sorted(known_hit.keys()),
     )
     ev = dict(property_id=pid, tier=tier, seed=seed, level=cfg.get("level", "proof"), coverage=cov,
